@@ -231,7 +231,7 @@ class C18(Check):
     reference_models = ["lstat()/read()/SEEK_HOLE walk of the source tree by the orchestrator", "ref/refext4.py tree_digest() incl. hole map and xattrs"]
 
     def budget(self, tier):
-        return {"runs": 2500, "wall_s": 80} if tier == "quick" else {"runs": 20000, "wall_s": 1500}
+        return {"runs": 2500, "wall_s": 80} if tier == "quick" else {"runs": 25000, "wall_s": 1500}
 
     def generate(self, rng, tier):
         cfg = gen_config(rng, avoid=("mmp", "quota", "project"))
